@@ -4,7 +4,7 @@
    up to and including the one the spec action names (EndBlock: the same block after a second real node verified
    and executed it through DPoVP.InsertBlock; its state is read from that node).  Logged per block: for every
    transaction whether it was packaged, gasUsed, gas limit / price, payer; the state of the whole address universe
-   at the parent and at the block (every address named in block.ChangeLogs is inside the universe, the adapter fails
+   at the block - the state at its parent is the committed state `cur` logged before (every address named in block.ChangeLogs is inside the universe, the adapter fails
    otherwise).  Amounts are in units of 10^15 mo, exact (a remainder is listed in `inexact`, which must be empty).
 
    The monitor adopts the logged state, gasUsed and packaging decisions and demands what the property says, using
@@ -31,18 +31,18 @@ GasOK(q, i) == IF i > Len(q) THEN TRUE
 RECURSIVE GasSum(_, _)
 GasSum(q, i) == IF i > Len(q) THEN 0 ELSE (IF q[i].inc THEN q[i].gu ELSE 0) + GasSum(q, i + 1)
 
-X(e, dv) == Block(c, dv, e.pre, e.txs)
+X(e, dv) == Block(c, dv, cur, e.txs)    \* every block of a behaviour is mined on the committed parent, whose state is cur
 Has(k) == k \in AllowedDev
 
 (* ---------------------------------------------------------------- C05 *)
 C05Common(e) == NonNegBal(e.post) /\ GasOK(e.txs, 1) /\ e.hgu = GasSum(e.txs, 1)
 C05OK(e) == LET x == X(e, {}) IN
             /\ C05Common(e) /\ e.post.bal = x.s.bal
-            /\ Total(e.post.bal) - Total(e.pre.bal) = x.rew - x.burn
+            /\ Total(e.post.bal) - Total(cur.bal) = x.rew - x.burn
 C05Dev(e) == LET k == "Dev_BoxSubGasMinted" IN
              /\ Has(k) /\ ~C05OK(e) /\ C05Common(e) /\ e.post.bal = X(e, {k}).s.bal /\ UseDev(k)
 (* ---------------------------------------------------------------- C11 *)
-C11OK(e) == IF VotesOK(c, e.pre) THEN VotesOK(c, e.post)
+C11OK(e) == IF VotesOK(c, cur) THEN VotesOK(c, e.post)
             ELSE e.post.votes = X(e, {}).s.votes          \* after an accepted deviation: the block itself must still be right
 C11Dev(e) == LET k == "Dev_VoteUsesPreTxBalance" IN
              /\ Has(k) /\ ~C11OK(e) /\ e.post.votes = X(e, {k}).s.votes /\ X(e, {}).s.votes # X(e, {k}).s.votes /\ UseDev(k)
@@ -51,7 +51,7 @@ C12With(e, x) == /\ e.post.eq = x.s.eq /\ e.post.sup = x.s.sup /\ e.post.frz = x
 C12OK(e) == C12With(e, X(e, {}))
 C12Dev(e) == LET k == "Dev_NegativeAssetTransfer" IN Has(k) /\ ~C12OK(e) /\ C12With(e, X(e, {k})) /\ UseDev(k)
 
-Judge(e) == /\ e.inexact = <<>> /\ e.pre = cur
+Judge(e) == /\ e.inexact = <<>>
             /\ CASE Check = "C05" -> C05OK(e) \/ C05Dev(e)
                  [] Check = "C11" -> C11OK(e) \/ C11Dev(e)
                  [] Check = "C12" -> C12OK(e) \/ C12Dev(e)
